@@ -113,8 +113,13 @@ class BareError(Exception):
     pass
 
 
+_SAME_INSTANCES = {}
+
+
 def make_exc(spec):
     kind = spec[0]
+    if kind == "Same":  # one exception INSTANCE per process and message, raised again and again (a stored / re-raised error)
+        return _SAME_INSTANCES.setdefault(spec[1], RuntimeError(spec[1]))
     if kind == "ValueError":
         return ValueError(spec[1])
     if kind == "KeyError":
